@@ -30,6 +30,8 @@ def build(chk, ip, runner):
     units += c12_gex.send_init_units()
     chk.units = units
     chk.stubs = c12_gex.stubs() + c12_gex.send_init_stubs() + [c for c in c11_hostkey.perform_stubs() if c.qual != 'SSH2_KexDB.get_db']
+    chk.assumptions = ['the units see the peer only through abstract socket / KexDH / _send_init contracts (any result, KexDHException possible); connect() is counted, not dialled',
+                       'closing relies on SSH_Socket.close being called (checked at the fake socket in the bounded part); CPython finalisers are not modelled']
     chk.customs = [custom_native]
     chk.level = 'other'
     chk.explanation = ('proved for every server behaviour: at most 9 group-exchange probes per algorithm (GEXTest.run), one reconnect / at most one request / '
